@@ -6,6 +6,7 @@ import Pcore.Generated.Locksets
 import Pcore.Model.LazyCache
 import Pcore.Generated.CacheSites
 import Pcore.Model.InstantiateOnce
+import Driver.QueueC13
 /-! Driver op for C13: `sched (tree NODE*) (threads (th STEP*)…) (sched T*)` — syntax and output in harness/c13/c13.go. -/
 namespace C13
 open Sx Pcore.LoaderSeq Pcore.LoaderConc
@@ -121,10 +122,16 @@ def cacherace : String :=
 
 def exec : List Sexp → String
   | [.atom "lockrace"] => lockrace
+  | [.atom "queuerace"] => QueueC13.queuerace
+  | [.atom "declq", .list [.atom "pend", n], .list (.atom "threads" :: ths), .list (.atom "sched" :: sch)] => QueueC13.declqExec n ths sch
   | [.atom "cacherace"] => cacherace
   | [.atom "structrace", n, r] =>        -- free-running on the implementation side; on a correct tree the only answer
     match n.nat?, r.nat? with
     | some n, some r => if n = 0 ∨ r = 0 ∨ n > 100000 ∨ r > 50 then "bad-op" else "full"
+    | _, _ => "bad-op"
+  | [.atom "declstress", n, r] =>        -- free-running on the implementation side; on a correct tree the only answer
+    match n.nat?, r.nat? with
+    | some n, some r => if n = 0 ∨ r = 0 ∨ n > 2000 ∨ r > 20 then "bad-op" else "ok"
     | _, _ => "bad-op"
   | [.atom "files", .list (.atom "files" :: fs), .list (.atom "threads" :: ths), .list (.atom "sched" :: sch)] => filesExec fs ths sch
   | [.atom "cache", .list [.atom "val", v], .list (.atom "threads" :: ths), .list (.atom "sched" :: sch)] => cacheExec v ths sch
